@@ -80,3 +80,13 @@ func TestWorker(t *testing.T) {
 		}
 	}
 }
+
+// TestDump prints the scenario generated for VERIF_PROP / VERIF_FROM.
+func TestDump(t *testing.T) {
+	if os.Getenv("VERIF_DUMP") == "" {
+		t.Skip()
+	}
+	sc := Generate(os.Getenv("VERIF_PROP"), uint64(envInt("VERIF_FROM", 1)))
+	b, _ := json.MarshalIndent(sc, "", " ")
+	fmt.Fprintln(os.Stderr, string(b))
+}
